@@ -168,6 +168,87 @@ def check_tree(case):
     return None
 
 
+def conn_cases(tier, seed):
+    """(tree, variant): both sides of a bundle connection must agree on which flattened port carries which member"""
+    rnd = random.Random(seed + 17)
+    base = []
+    base.append(((("x", "plain", 1), ("y", "plain", 2)), ()))
+    base.append(((("a", "input", 1), ("b", "output", 1), ("c", "plain", 3)), ()))
+    base.append(((("t", "plain", 1),), (("s", False, None, ((("x", "plain", 1), ("y", "plain", 2)), ())),)))
+    base.append(((("zz", "plain", 2),), (("s1", False, None, ((("x", "plain", 1),), ())),
+                                        ("s0", True, None, ((("x", "plain", 1), ("w", "plain", 1)), ())))))
+    base.append(((), (("m", False, None, ((("u", "plain", 1),), (("d", False, None, ((("x", "plain", 2),), ())),))),)))
+    n = 60 if tier == "thorough" else 8
+
+    def rand_tree(d):
+        leaves = tuple((f"l{k}", "plain", rnd.randint(1, 3)) for k in range(rnd.randint(0 if d else 1, 3)))
+        subs = ()
+        if d > 0:
+            subs = tuple((f"b{k}", rnd.random() < 0.5, None, rand_tree(d - 1)) for k in range(rnd.randint(0, 2)))
+        if not leaves and not subs:
+            leaves = (("l0", "plain", 1),)
+        return (leaves, subs)
+    for _ in range(n):
+        base.append(rand_tree(rnd.randint(1, 2)))
+    for t in base:
+        for variant in ("whole", "anon-reversed", "anon-sorted", "member-refs"):
+            yield (t, variant)
+
+
+def check_connection(case):
+    import hdl21 as h
+    from rtc.meaning import meaning, package_meaning, compare, Unsupported as OracleUnsupported
+    tree, variant = case
+    w = {"case": repr(("conn",) + case)}
+    roles = mk_roles()
+    B = build_bundle(tree, roles, [0])
+
+    def leaf_paths(t, prefix=()):
+        for name, kind, width in t[0]:
+            yield prefix + (name,), width
+        for name, fl, ro, sub in t[1]:
+            yield from leaf_paths(sub, prefix + (name,))
+
+    def tap(width):
+        return h.ExternalModule(name=f"Tap{width}", port_list=[h.Inout(name="a", width=width)], desc="", domain="c10")
+
+    def ref(bi, path):
+        cur = bi
+        for seg in path:
+            cur = getattr(cur, seg)
+        return cur
+    child = h.Module(name="C10Child")
+    child.bp = B(port=True)
+    for path, width in leaf_paths(tree):
+        child.add(tap(width)()(a=ref(child.bp, path)), name="c_" + "_".join(path))
+    parent = h.Module(name="C10Parent")
+    parent.pb = B()
+    for path, width in leaf_paths(tree):
+        parent.add(tap(width)()(a=ref(parent.pb, path)), name="p_" + "_".join(path))
+    members = [n for n, _, _ in tree[0]] + [n for n, _, _, _ in tree[1]]
+    if variant == "whole":
+        conn = parent.pb
+    elif variant == "member-refs":
+        conn = h.AnonymousBundle(**{n: getattr(parent.pb, n) for n in members})
+    else:
+        order = list(reversed(members)) if variant == "anon-reversed" else sorted(members, reverse=True)
+        conn = h.AnonymousBundle(**{n: getattr(parent.pb, n) for n in order})
+    parent.c = child(bp=conn)
+    try:
+        want = meaning(parent)
+    except OracleUnsupported:
+        return None
+    try:
+        pkg = h.to_proto(parent)
+    except Exception as e:
+        return (f"connection.raises.{type(e).__name__}", f"{case!r}: valid bundle connection rejected: "
+                                                         f"{type(e).__name__}: {str(e)[-140:]}", w)
+    diff = compare(want, package_meaning(pkg, parent.name))
+    if diff:
+        return ("connection.members-disagree", f"{case!r}: {diff[0][:260]}", w)
+    return None
+
+
 def flipped_obligations(ctx):
     """PortDir.flipped by pyvc + the involution lemma over its contract."""
     import z3
@@ -221,6 +302,12 @@ def run(ctx):
                          "distinct = (tree, instantiation); non-trivial = tree has a sub-bundle or a directed leaf",
                     bound="depth<=3, fan-out<=3", key_of=repr,
                     nontrivial=lambda c: bool(c[0][1]) or any(k != "plain" for _, k, _ in c[0][0]))
+    ctx.run_bounded("bundle-connections", conn_cases(ctx.tier, ctx.seed), check_connection,
+                    rule="a child whose bundle port's leaves each feed a distinguishable device, connected from a parent "
+                         "bundle instance whose leaves also feed devices: as the whole bundle, as an anonymous bundle "
+                         "listing the members in reversed / sorted order, and member by member; leaf-level partition "
+                         "compared with the reference interpreter; flat, nested, flipped and random definitions",
+                    bound="depth<=2", key_of=repr, nontrivial=lambda c: c[1] != "whole")
     ctx.assumptions.append("'the instance's role' is read as the role of the bundle instance that directly contains "
                            "the leaf (roles are declared per bundle type); role-directed leaves are not flipped")
     return INFO
@@ -230,6 +317,7 @@ def replay(payload):
     c = (payload.get("input") or {}).get("case")
     if not c:
         return 2
-    r = check_tree(eval(c))
+    case = eval(c)
+    r = check_connection(case[1:]) if case[0] == "conn" else check_tree(case)
     print("replay:", r)
     return 1 if r else 0
